@@ -1,6 +1,7 @@
 import GdcVerif.Driver.Util
 import GdcVerif.Spec.T81H
 import GdcVerif.Spec.T81HStream
+import GdcVerif.Spec.T81HEnc
 import GdcVerif.Model.JpegLossless
 /-!
   Driver ops of the T.81 Annex H specification (C13):
@@ -44,6 +45,24 @@ def step? : List String → Option String
     some <| match T81H.specDecode (hexToBytes hx) with
     | some im => s!"ok {im.width} {im.height} {im.precision} " ++ "|".intercalate (im.planes.map intsToStr)
     | none => "err"
+  | ["t81-stream-enc", p, w, h, sel, ids, td, tables, planes] =>
+    -- specEncode; tables = th/b1.b2.….b16/hexvals joined by '+', planes = comma lists joined by '|'  → ok hex | err
+    some <| match nats? [p, w, h, sel], natsCsv? ids, natsCsv? td with
+    | some [p, w, h, sel], some ids, some td =>
+      let tabs := (tables.splitOn "+").mapM fun t =>
+        match t.splitOn "/" with
+        | [th, bits, vals] => do
+          let th ← th.toNat?
+          let bits ← (bits.splitOn ".").mapM String.toNat?
+          pure (th, bits, hexToBytes vals)
+        | _ => none
+      match tabs, (planes.splitOn "|").mapM parseInts with
+      | some tabs, some pls =>
+        match T81H.specEncode p w h pls { sel := sel, ids := ids, td := td, tables := tabs } with
+        | some bs => "ok " ++ bytesToHex bs
+        | none => "err"
+      | _, _ => "bad-op"
+    | _, _, _ => "bad-op"
   | ["t81-td", b] =>
     some <| match b.toNat? with
     | some b => match T81H.td b with
